@@ -46,4 +46,60 @@ Theorem C13_cap : forall decode_body cap dw l body v m exc,
   N.of_nat (length body) <= cap.
 Proof. exact C13_proofs.cap_bound. Qed.
 Print Assumptions C13_cap.
+
+(* ---- tie to the code (client/protocol.py GeminiClientProtocol): the statements of coq/Equiv/EquivClient.v, re-checked here against the definitions regenerated
+   from /repo's working tree (coq/Gen); see DESIGN.md 11.8 ---- *)
+From Coq Require Import List NArith ZArith Bool.
+From NV Require Import Prelude.Str Prelude.Res Prelude.Utf8 Model.Titan Model.ClientProto Equiv.ClientGlue Gen.ClientGen.
+From NV Require Equiv.EquivClient.
+Theorem C13_code_max_header_line_tie : gen_MAX_HEADER_LINE_SIZE = max_header_line.
+Proof. exact EquivClient.max_header_line_tie. Qed.
+Print Assumptions C13_code_max_header_line_tie.
+
+Theorem C13_code_header_too_long_tie : forall s, gen_header_too_long s = header_too_long (cbuf s).
+Proof. exact EquivClient.header_too_long_tie. Qed.
+Print Assumptions C13_code_header_too_long_tie.
+
+Theorem C13_code_parse_header_tie : forall s line,
+  gen_parse_header (fun s k => (set_err s k, [])) s line = (parse_header s line, []).
+Proof. exact EquivClient.parse_header_tie. Qed.
+Print Assumptions C13_code_parse_header_tie.
+
+Theorem C13_code_cstep_data_tie : forall request soc db dw s d,
+  connected s = true ->
+  gen_data_received gen_header_too_long (gen_parse_header gen_set_error) gen_set_error s d
+  = cstep request soc db gen_MAX_RESPONSE_BODY_SIZE dw s (CData d).
+Proof. exact EquivClient.cstep_data_tie. Qed.
+Print Assumptions C13_code_cstep_data_tie.
+
+Theorem C13_code_cstep_lost_tie : forall request soc db cap dw url s exc,
+  (cfut s = Pending -> hdr s = true -> status s <> None) ->
+  gen_connection_lost dw url db s (option_map (app (lit "conn:")) exc) = cstep request soc db cap dw s (CLost exc).
+Proof. exact EquivClient.cstep_lost_tie. Qed.
+Print Assumptions C13_code_cstep_lost_tie.
+
+Theorem C13_code_cstep_connected_tie : forall soc db cap dw url b s,
+  encode (url ++ [13; 10]%N) = Some b ->
+  gen_connection_made (gen_send_request url) soc s = cstep [b] soc db cap dw s CConnected.
+Proof. exact EquivClient.cstep_connected_tie. Qed.
+Print Assumptions C13_code_cstep_connected_tie.
+
+Theorem C13_code_send_request_tie : forall soc db cap dw url b s,
+  encode (url ++ [13; 10]%N) = Some b ->
+  gen_send_request url s = cstep [b] soc db cap dw s CSend.
+Proof. exact EquivClient.send_request_tie. Qed.
+Print Assumptions C13_code_send_request_tie.
+
+Theorem C13_code_status_known_reachable : forall request soc db cap dw evs,
+  let s := fst (crun request soc db cap dw cinit evs) in
+  cfut s = Pending -> hdr s = true -> status s <> None.
+Proof. exact EquivClient.status_known_reachable. Qed.
+Print Assumptions C13_code_status_known_reachable.
+
+Theorem C13_code_connected_stable : forall request soc db cap dw s e,
+  connected s = true -> connected (fst (cstep request soc db cap dw s e)) = true.
+Proof. exact EquivClient.connected_stable. Qed.
+Print Assumptions C13_code_connected_stable.
+
+
 Close Scope N_scope.
